@@ -135,17 +135,162 @@ def inexact(s):
     return isinstance(s, str) and _BIGDEN.search(s) is not None
 
 
-def has_inexact_const(vf):
+def const_values(vf):
+    from pyiga import vform as V
+    return set(e.value for e in vf.all_exprs(type=V.ConstExpr))
+
+
+def has_inexact_const(vf, before=()):
+    """a constant that is not a small dyadic rational AND was not a literal of the form as written: it was produced by
+    float arithmetic inside fold_constants (which may round; the oracle and the model compute exactly)"""
     from pyiga import vform as V
     for e in vf.all_exprs(type=V.ConstExpr):
-        if Fr(e.value).denominator > 2 ** 40:
+        if e.value not in before:
             return True
     return False
 
 
+_CTOK = re.compile(r'C (-?\d+/\d{12,})')
+
+
+def new_inexact(request, answer):
+    """the answer contains a non-dyadic constant that does not occur in the request (see has_inexact_const)"""
+    if not isinstance(answer, str):
+        return False
+    new = set(_CTOK.findall(answer))
+    return bool(new) and not new <= set(_CTOK.findall(request))
+
+
+def const_arith(e):
+    """does fold_constants (with the exact rules) evaluate an operation on two constants somewhere in this tree?
+    Only then can the implementation (double arithmetic) and the exact oracle/model differ by rounding.
+    Returns (flag, value-if-the-tree-folds-to-a-constant-else-None)."""
+    from pyiga import vform as V
+    if isinstance(e, V.ConstExpr):
+        return False, Fr(e.value)
+    if isinstance(e, V.ScalarOperExpr):
+        fa, a = const_arith(e.x)
+        fb, b = const_arith(e.y)
+        flag = fa or fb
+        if a is not None and b is not None:
+            try:
+                v = {'+': a + b, '-': a - b, '*': a * b}[e.oper] if e.oper != '/' else a / b
+            except ZeroDivisionError:
+                v = None
+            return True, v
+        if e.oper == '+':
+            return flag, (b if a == 0 else a if b == 0 else None)
+        if e.oper == '-':
+            return flag, (a if b == 0 else None)
+        if e.oper == '*':
+            return flag, (Fr(0) if (a == 0 or b == 0) else b if a == 1 else a if b == 1 else None)
+        if e.oper == '/':
+            return flag, (Fr(0) if a == 0 else a if b == 1 else None)
+        return flag, None
+    flag = False
+    for c in e.children:
+        flag = const_arith(c)[0] or flag
+    return flag, None
+
+
+def wire_const_arith(toks, i=0):
+    """const_arith on a serialised tree; returns (flag, value|None, next index)"""
+    t = toks[i]
+    if t == 'C':
+        return False, Fr(toks[i + 1]), i + 2
+    if t == 'S':
+        op = toks[i + 1]
+        fa, a, j = wire_const_arith(toks, i + 2)
+        fb, b, j = wire_const_arith(toks, j)
+        flag = fa or fb
+        if a is not None and b is not None:
+            try:
+                v = {'+': a + b, '-': a - b, '*': a * b}[op] if op != '/' else a / b
+            except ZeroDivisionError:
+                v = None
+            return True, v, j
+        if op == '+':
+            return flag, (b if a == 0 else a if b == 0 else None), j
+        if op == '-':
+            return flag, (a if b == 0 else None), j
+        if op == '*':
+            return flag, (Fr(0) if (a == 0 or b == 0) else b if a == 1 else a if b == 1 else None), j
+        return flag, (Fr(0) if a == 0 else a if b == 1 else None), j
+    def kids(n, j):
+        flag = False
+        for _ in range(n):
+            f, _, j = wire_const_arith(toks, j)
+            flag = flag or f
+        return flag, None, j
+    if t == 'LV':
+        return kids(int(toks[i + 1]), i + 2)
+    if t == 'LM':
+        return kids(int(toks[i + 1]) * int(toks[i + 2]), i + 3)
+    if t == 'V':
+        j = i + 2
+        j += 1 + int(toks[j]); j += 1 + int(toks[j])
+        return False, None, j + 1
+    if t == 'N':
+        return kids(1, i + 1)
+    if t == 'F':
+        return kids(1, i + 2)
+    if t == 'T':
+        return kids(2, i + 2)
+    if t in ('X', 'O', 'MV', 'MM'):
+        return kids(2, i + 1)
+    if t == 'P':
+        j = i + 5
+        j += 1 + int(toks[j])
+        return False, None, j + 1
+    if t == 'G':
+        return False, None, i + 2
+    return False, None, i + 1        # DX, DS
+
+
+def form_const_arith(vf):
+    roots = [v.expr for v in L.reachable_vars(vf) if v.expr is not None] + list(vf.exprs)
+    return any(const_arith(r)[0] for r in roots)
+
+
+def tree_consts(e, out=None):
+    from pyiga import vform as V
+    out = set() if out is None else out
+    if isinstance(e, V.ConstExpr):
+        out.add(e.value)
+    for c in e.children:
+        tree_consts(c, out)
+    return out
+
+
 def approx_equal(a, b):
-    return len(a) == len(b) and all(len(x) == len(y) and all(abs(p - q) <= Fr(1, 10 ** 9) * max(abs(p), abs(q), 1) for p, q in zip(x, y))
+    """equal up to the rounding of constants folded in double arithmetic: purely relative 1e-10 (2^-53 per folded operation,
+    amplified by the conditioning of the expression at a random rational point); no absolute floor, so a term that is
+    dropped or a form that becomes zero is never accepted"""
+    return len(a) == len(b) and all(len(x) == len(y) and all(abs(p - q) <= Fr(1, 10 ** 10) * max(abs(p), abs(q)) for p, q in zip(x, y))
                                     for x, y in zip(a, b))
+
+
+def same_up_to_rounding(impl, model, request=None):
+    """two serialised trees of identical structure whose only differences are constants agreeing to 1e-12 relative:
+    the implementation folded constants in double arithmetic, the model exactly"""
+    if not (isinstance(impl, str) and isinstance(model, str)):
+        return False
+    a, b = impl.split(), model.split()
+    if len(a) != len(b):
+        return False
+    scale = max([abs(Fr(t)) for i, t in enumerate(a) if i and a[i - 1] == 'C'] + [Fr(0)]) if request is None else \
+        max([abs(Fr(t)) for i, t in enumerate(request.split()) if i and request.split()[i - 1] == 'C'] + [Fr(0)])
+    for i, (x, y) in enumerate(zip(a, b)):
+        if x != y:
+            if i == 0 or a[i - 1] != 'C' or b[i - 1] != 'C':
+                return False
+            try:
+                p, q = Fr(x), Fr(y)
+            except Exception:
+                return False
+            if abs(p - q) > Fr(1, 10 ** 12) * max(abs(p), abs(q), scale):
+                return False
+    return True
 
 
 class patched_const_key:
@@ -168,13 +313,14 @@ def oracle_on_seed(seed, small=False):
     try:
         w = L.World(vf, np.random.default_rng(seed + 12345))
         before = [L.flat(w.ev(e)) for e in vf.exprs]
+        c0 = const_values(vf)
         vf.finalize()
         after = [L.flat(v) for v in w.run_program(vf)]
     except KeyError as ex:
         return ('use-before-def', str(ex))
     except Exception:
         return 'skip'
-    if after == before or (has_inexact_const(vf) and approx_equal(after, before)):
+    if after == before or approx_equal(after, before):
         return None
     return ('value-changed', None)
 
@@ -197,6 +343,7 @@ def form_case(args):
             cnt('generator-invalid:' + desc)
             return out
         out['desc'] = desc
+        pending_round = False
         cnt('forms'); cnt('kind=' + desc['kind']); cnt('dim=%d' % desc['dim']); cnt('arity=%d' % desc['arity'])
         if desc['vec']:
             cnt('vector-valued')
@@ -209,11 +356,16 @@ def form_case(args):
             before = None
             cnt('oracle-skip:' + type(ex).__name__)
         src0 = [L.ser(e) for e in vfA.exprs]
+        c0 = const_values(vfA)
         try:
             vfA.finalize()
             fin_ok = True
-        except ZeroDivisionError:
+        except ZeroDivisionError as ex:
             fin_ok = False; cnt('finalize:ZeroDivisionError')
+            if before is not None:
+                # only a constant zero divisor may raise, and then the expression has no value either
+                out['oracle'] = ('finalize-raised', 'ZeroDivisionError (%s) although the expression has the value %s at the test point'
+                                 % (str(ex)[:120], [[str(x) for x in b] for b in before]), src0)
         except KeyError:
             fin_ok = False; cnt('finalize:KeyError(unused let-variable in hash())')
         except Exception as ex:
@@ -222,8 +374,9 @@ def form_case(args):
         if fin_ok and before is not None:
             try:
                 after = [L.flat(v) for v in w.run_program(vfA)]
-                if after != before and has_inexact_const(vfA) and approx_equal(after, before):
-                    cnt('oracle-ok-up-to-rounding-of-folded-constants')
+                if after != before and approx_equal(after, before):
+                    pending_round = True       # accepted only if fold_constants combined two constants (decided below)
+                    cnt('oracle-ok')
                 elif after != before:
                     with patched_const_key():
                         attributed = oracle_on_seed(seed, small) is None
@@ -255,6 +408,11 @@ def form_case(args):
             snaps[s] = L.snapshot(vfB)
             if s in ('s7', 's9'):
                 al.update(alias_defs(vfB))
+            if s == 's6' and pending_round:
+                if form_const_arith(vfB):
+                    cnt('oracle-ok-up-to-rounding-of-folded-constants')
+                else:
+                    out['oracle'] = ('value-changed', 'value differs (relative < 1e-10) although fold_constants combines no two constants', src0)
         staged_finalize(vfB, snap)
         for (a, b, op) in (('s5', 's6', 'lit'), ('s6', 's7', 'fold')):
             va, ea = snaps[a]; vb, eb = snaps[b]
@@ -325,6 +483,8 @@ class Synth:
         return int(self.rng.integers(0, n))
 
     def const(self):
+        if self.r(5) == 0:
+            return L.NEAR_RANDOM[self.r(len(L.NEAR_RANDOM))]
         return [0.0, 1.0, -1.0, 2.0, 0.5, -2.0, 4.0, 0.0, 1.0, -1.0, 3.0, -0.25][self.r(12)]
 
     def atom(self, nobf=False):
@@ -394,6 +554,17 @@ def synth_stream(ctx, add, n):
     from pyiga import vform as V
     rng = ctx.rng
     worlds = {}
+    # every near-special / special literal in every position fold_constants inspects, on every run
+    for c in L.SPECIALS:
+        for pos in L.FOLD_POSITIONS:
+            S = Synth(rng, 2)
+            x = [S.f, S.w[0], S.K[0, 1], S.u, S.c][S.r(5)]
+            e = L.fold_position(V, pos, c, x)
+            if pos == 'c*u*v':
+                e = e * S.u * S.v
+            def f(e=e):
+                return L.ser(V.transform_expr(copy.deepcopy(e), lambda z: z.fold_constants()))
+            add('fold ' + L.ser(e), guarded(f), ('fold', e)); ctx.count('synth:fold-special-literals')
     for it in range(n):
         dim = 1 + int(rng.integers(0, 3))
         S = Synth(rng, dim)
@@ -542,6 +713,21 @@ def dual_eval(w, e, k, par, store=None):
 def search_pass(kind, m, py_answer, rng):
     """evaluate before/after on random exact environments; returns description of a failing input or None"""
     from pyiga import vform as V
+    if isinstance(py_answer, str) and py_answer.startswith('err-') and kind == 'fold':
+        # the pass raised: a failing input if the expression itself has a value
+        try:
+            e = m[1]
+            vf = e.find_vf() or V.VForm(2)
+            for t in range(4):
+                w = L.World(vf, np.random.default_rng(t))
+                try:
+                    a = L.flat(w.ev(e))
+                except (ZeroDivisionError, L.Unsupported):
+                    continue
+                return {'pass': 'fold', 'before': L.ser(e)[:1500], 'raised': py_answer, 'value_before': [str(x) for x in a], 'env_seed': t}
+        except Exception:
+            return None
+        return None
     if isinstance(py_answer, str) and py_answer.startswith('err-') and kind not in ('dx',):
         return None
     try:
@@ -556,7 +742,7 @@ def search_pass(kind, m, py_answer, rng):
                     a, b = L.flat(w.ev(e)), L.flat(w.ev(e2))
                 except (ZeroDivisionError, L.Unsupported):
                     continue
-                if a != b and inexact(L.ser(e2)) and approx_equal([a], [b]):
+                if a != b and const_arith(e)[0] and approx_equal([a], [b]):
                     continue        # a float division inside fold_constants rounded; equal up to that rounding
                 if a != b:
                     return {'pass': kind, 'before': L.ser(e)[:1500], 'after': L.ser(e2)[:1500], 'value_before': [str(x) for x in a],
@@ -723,7 +909,7 @@ def run(ctx):
     table_tok = key_table_tokens({k: v for k, v in key_table.items()})
     nforms = int(os.environ.get('C06_NFORMS', 0)) or (500 if ctx.tier == 'quick' else 6000)
     nsynth = 3200 if ctx.tier == 'quick' else 24000
-    seeds = [int(s) for s in ctx.rng.integers(0, 2 ** 31, size=nforms)]
+    seeds = [-1 - k for k in range(L.N_SPECIAL_FORMS)] + [int(s) for s in ctx.rng.integers(0, 2 ** 31, size=nforms)]
     req, exp, meta = [], [], []
 
     def add(r, e, m):
@@ -741,6 +927,7 @@ def run(ctx):
         results = pool.map(form_case, [(s, table_tok, small) for s in seeds], chunksize=8)
     ctx.extra['t_forms'] = round(_t.time() - t0, 1); t0 = _t.time()
     nviol = 0
+    bad_seeds = set()
     for res in results:
         for k, v in res['counts'].items():
             ctx.count(k, v)
@@ -748,6 +935,7 @@ def run(ctx):
             ctx.count('harness-worker-error')
             ctx.notes.append('worker error seed %d: %s' % (res['seed'], res['error'][-300:]))
         if res['oracle'] is not None:
+            bad_seeds.add(res['seed'])
             kind, detail, src0 = res['oracle']
             if kind.endswith('const-hash-collision'):
                 ctx.count('oracle-failures-attributed-to-known-const-hash-collision')
@@ -797,9 +985,24 @@ def run(ctx):
             continue
         if e == g:
             continue
-        if inexact(e) and m[0] in ('fold', 'inline'):
+        if m[0] == 'fold' and same_up_to_rounding(e, g, r):
             ctx.count('skipped:inexact-float-constant-folding')
             continue
+        if m[0] == 'fold' and isinstance(e, str) and not e.startswith('err-'):
+            # the implementation combined two constants in double arithmetic and the *rounded* result hit a folding rule
+            # (e.g. 1 - (-1e-20) == 1.0, then x*1 -> x): legitimate iff the value is preserved up to that rounding
+            try:
+                comb = wire_const_arith(r.split()[1:])[0]
+            except Exception:
+                comb = False
+            if comb:
+                if isinstance(m[1], int):
+                    ok_round = m[1] not in bad_seeds
+                else:
+                    ok_round = search_pass('fold', m, e, orng) is None
+                if ok_round:
+                    ctx.count('skipped:rounded-constant-hit-a-folding-rule(value preserved)')
+                    continue
         if m[0] == 'keys':
             att = attribute_keys(m[1], e, g)
             if att is not None:
